@@ -37,6 +37,7 @@ THEOREMS = [
     "Optyx.Props.C06.lp_optimal_feasible",
     "Optyx.Props.C06.solve_optimal_feasible",
     "Optyx.Props.C06.lp_optimal_user_feasible",
+    "Optyx.Props.Glue.lpGlue_text",
 ]
 ASSUMPTIONS = [
     "solver results are finite: NaN / ±inf inside result.x or result.fun are outside the rational model",
